@@ -29,7 +29,7 @@ InImage(img, a, n) == \A i \in 0..(n - 1) : (a + i) \in DOMAIN img
 Window(img, a, n) == [i \in 1..n |-> img[a + i - 1]]
 
 \* ------------------------------------------------------------------ one instruction (Disassemble callback)
-NoInstr(len) == [ok |-> FALSE, len |-> len, succ |-> {}, id |-> "", ops |-> <<>>, units |-> <<>>]
+NoInstr(len) == [ok |-> FALSE, len |-> len, succ |-> {}, id |-> "", ops |-> <<>>, units |-> <<>>, flow |-> ""]
 
 DecodeAt(img, a) ==
   IF a \notin DOMAIN img THEN NoInstr(0)                                      \* ZeroLengthOutside
@@ -48,7 +48,8 @@ DecodeAt(img, a) ==
                            [] f.flow = "call" -> tgt \cup fall
                            [] f.flow = "jump" -> tgt
                            [] OTHER -> {}
-             IN [ok |-> TRUE, len |-> n, succ |-> succ, id |-> f.id, ops |-> ops, units |-> EncodeRaw(f, ops, a)]
+             IN [ok |-> TRUE, len |-> n, succ |-> succ, id |-> f.id, ops |-> ops, units |-> EncodeRaw(f, ops, a),
+                 flow |-> f.flow]
 
 \* ------------------------------------------------------------------ the worklist machine
 InitState(ents, vecs) ==              \* vecs: set of <<address, length>> vector cells given on the command line
